@@ -278,8 +278,8 @@ class Analyzer:
                             phi_uses[bn].setdefault(lab, set()).add(v.val)
                     continue
                 for n in self._uses(i):
-                    if n not in d and n not in pd:
-                        u.add(n)
+                    if n not in d:
+                        u.add(n)       # includes names defined by this block's own phis: they are live after the phis
                 if i.res is not None:
                     d.add(i.res)
             use[bn] = u
